@@ -278,16 +278,24 @@ func c17(c *Ctx) {
 			found := false
 			for _, v := range g.V {
 				for _, e := range v.Succ {
-					if e.Cond == nil || !e.Val {
+					if e.Cond == nil || e.Tag != nil {
 						continue
 					}
+					// the edge on which "not yet seen" holds and the node is not the leader (either polarity of the test:
+					// true edge of A && B, false edge of !A || !B): unit clauses of the edge's condition
 					hasNYS, notLeader := false, false
-					for _, f := range cfgx.ExpandCond(e.Cond, true) {
-						if ok, eq := isNYS(info, f.Expr); ok && eq == f.Val {
+					for _, cl := range c.clausesOf(info, sop.Node(), e.Cond, e.Val, 0) {
+						if len(cl) != 1 {
+							continue
+						}
+						l := cl[0]
+						if ok, eq := isNYS(info, l.E); ok && eq == l.Pos {
 							hasNYS = true
 						}
-						if be, ok := ast.Unparen(f.Expr).(*ast.BinaryExpr); ok && be.Op == token.NEQ && f.Val && (refersTo(info, be.Y, pathRaft, "Leader") || refersTo(info, be.X, pathRaft, "Leader")) {
-							notLeader = true
+						if be, ok := ast.Unparen(l.E).(*ast.BinaryExpr); ok && (refersTo(info, be.Y, pathRaft, "Leader") || refersTo(info, be.X, pathRaft, "Leader")) {
+							if (be.Op == token.NEQ && l.Pos) || (be.Op == token.EQL && !l.Pos) {
+								notLeader = true
+							}
 						}
 					}
 					if !hasNYS {
@@ -375,6 +383,10 @@ func c17(c *Ctx) {
 				ok := false
 				for _, f := range g.FactsAt(v.ID) {
 					if isCmp, eq := isNYS(info, f.Expr); isCmp && f.Tag == nil && eq != f.Val {
+						ok = true
+					}
+					// switch err { case ErrSessionNotYetSeen: … default: 404 }: the tag fact err != case value
+					if f.Tag != nil && !f.Val && refersTo(info, f.Expr, pathIrcsrv, "ErrSessionNotYetSeen") {
 						ok = true
 					}
 				}
